@@ -120,6 +120,13 @@ def rows_to_df(rows, radius=0.01):
                          'radius': radius})
 
 
+def index_hash(rows):
+    h = 0
+    for r in rows:
+        h = (h * 1000003 + int(r['id']) * 31 + int(r['parent'])) & 0xFFFFFFFF
+    return h
+
+
 def index_variant(rows):
     """Deterministic choice of the DataFrame index the node table is handed to navis with: navis keeps the
     caller's index, and code that confuses index LABELS with row POSITIONS is only visible when they differ.
@@ -142,6 +149,18 @@ def to_neuron(rows, **kw):
         df.index = perm
     elif v == 3 and n > 0:
         df.index = [7 * k + 5 for k in range(n)]
+    # coordinate dtype: navis keeps integer-typed coordinate columns; arithmetic done in the columns' own dtype
+    # (wrap-around of unsigned differences, truncating casts) is only visible on such tables
+    dv = (index_hash(rows) // 4) % 6 if os.environ.get('VERIF_DEFAULT_DTYPE') != '1' else 0
+    if dv in (3, 4, 5) and n > 0:
+        xyz = df[['x', 'y', 'z']].values
+        if np.all(xyz == np.round(xyz)) and np.abs(xyz).max() < 2 ** 31 - 1:
+            if dv == 5 and xyz.min() >= 0:
+                dt = np.uint32
+            else:
+                dt = np.int64 if dv == 3 else np.int32
+            for c in ('x', 'y', 'z'):
+                df[c] = df[c].astype(dt)
     return navis.TreeNeuron(df, **kw)
 
 
